@@ -6,6 +6,7 @@ import Mb2.Mbi
 import Mb2.Spec
 import Mb2.Ids
 import Mb2.Sweep
+import Mb2.Build
 namespace Mb2.Driver
 open Mb2
 
@@ -279,6 +280,139 @@ def elfnameCase (t : List String) : String :=
     | .panic => "P" | .oob => "OOB" | .ub => "UB"
   | _ => "bad-case"
 
+
+/-- read-back through the accessor model on the constructed bytes (same text as the harness prints) -/
+def ctorRb (name : String) (img : Img) : String :=
+  let T := img.bytes ++ zeros (img.sov - img.bytes.length)
+  let f (o w : Nat) : String := resStr toString (rdW T o w)
+  let strS (fixed : Nat) : String :=
+    match parseStr (slice T fixed (img.size - fixed)) with
+    | .ok n => s!"s:{hexOf (slice T fixed n)}"
+    | .error .missingNul => "e:MissingNul"
+    | .error .utf8 => "e:Utf8"
+  let j (l : List String) := ":".intercalate l
+  match name with
+  | "cmdline" | "loader" => strS 8
+  | "module" => j [f 8 4, f 12 4, strS 16]
+  | "meminfo" => j [f 8 4, f 12 4]
+  | "bootdev" => j [f 8 4, f 12 4, f 16 4]
+  | "mmap" => s!"{f 8 4}:{f 12 4}:" ++ j ((List.range ((img.size - 16) / 24)).map fun i =>
+      s!"{f (16 + 24*i) 8}/{f (24 + 24*i) 8}/{f (32 + 24*i) 4}")
+  | "vbe" => j [f 8 2, f 10 2, f 12 2, f 14 2]
+  | "fb" => j [f 8 8, f 16 4, f 20 4, f 24 4, f 28 1]
+  | "elf" => j [f 8 4, f 12 4, f 16 4]
+  | "apm" => j [f 8 2, f 10 2, f 12 4, f 16 2, f 18 2, f 20 2, f 22 2, f 24 2, f 26 2]
+  | "efi32" | "ih32" | "loadbase" => f 8 4
+  | "efi64" | "ih64" => f 8 8
+  | "smbios" => j [f 8 1, f 9 1, hexOf (slice T 16 (img.size - 16))]
+  | "rsdp1" => j [f 23 1, f 24 4]
+  | "rsdp2" => j [f 23 1, f 32 8, f 40 1]
+  | "h_address" => j [f 8 4, f 12 4, f 16 4, f 20 4]
+  | "h_console" | "h_entry" | "h_efi32" | "h_efi64" => f 8 4
+  | "h_fb" => j [f 8 4, f 12 4, f 16 4]
+  | "h_reloc" => j [f 8 4, f 12 4, f 16 4, f 20 4]
+  | "h_inforeq" => j ((List.range ((img.size - 8) / 4)).map fun i => f (8 + 4*i) 4)
+  | _ => ""
+
+def ctorCase (p : Profile) (t : List String) : String :=
+  match t with
+  | _ :: name :: rest =>
+    let blob := unhex (rest.headD "-")
+    match ctorImpl p name blob with
+    | .ok img =>
+      let fl := match img.flags with | some f => s!" flags={f}" | none => ""
+      s!"typ={img.typ}{fl} size={img.size} bytes={hexOf img.bytes} sov={img.sov} align=8 asbytes=ok:{img.sov} rb={ctorRb name img}"
+    | .panic => "panic" | .oob => "OOB" | .ub => "UB"
+  | _ => "bad-case"
+
+
+def boxedStr (b : Boxed) (size : Nat) (pl : Option Nat) : String :=
+  let pls := match pl with | some n => s!" pl={n}" | none => ""
+  s!"size={size} bytes={hexOf (b.bytes.take size)}{pls} sov={b.deallocSize} addr8=0 alloc={b.allocSize}/{b.align} dealloc={b.deallocSize}/{b.align}"
+
+/-- BOXED <kind> <header image> <slices> -/
+def boxedCase (p : Profile) (t : List String) : String :=
+  match t with
+  | _ :: ks :: hh :: rest =>
+    match hkOf ks with
+    | none => s!"unknown-kind:{ks}"
+    | some k =>
+      let hb := unhex hh
+      let hdr := if k == .ht then enc16 (le16 hb 0 % 11) ++ enc16 (le16 hb 2 % 2) ++ hb.drop 4 else hb
+      let slices := ((rest.headD "").splitOn ",").filter (fun s => s != "") |>.map unhex
+      match newBoxed p k (genericDesc k) hdr slices with
+      | .ok b => boxedStr b (k.hsize + slices.flatten.length) (some slices.flatten.length)
+      | .panic => "panic" | .oob => "OOB" | .ub => "UB"
+  | _ => "bad-case"
+
+/-- CLONE <kind> <tag image> -/
+def cloneCase (p : Profile) (t : List String) : String :=
+  match t with
+  | [_, kind, hx] =>
+    let bytes := unhex hx
+    let kd : Option (HK × TyDesc) := match kind with
+      | "generic" => some (.tag, genericDesc .tag) | "cmdline" => some (.tag, Kind.desc .cmdline)
+      | "loader" => some (.tag, Kind.desc .loader) | "module" => some (.tag, Kind.desc .module)
+      | "mmap" => some (.tag, Kind.desc .mmap) | "efimmap" => some (.tag, Kind.desc .efiMmap)
+      | "elf" => some (.tag, Kind.desc .elf) | "smbios" => some (.tag, Kind.desc .smbios)
+      | "fb" => some (.tag, Kind.desc .fb) | "network" => some (.tag, Kind.desc .network)
+      | "hgeneric" => some (.ht, genericDesc .ht) | "inforeq" => some (.ht, infoReqDesc)
+      | _ => none
+    match kd with
+    | none => s!"unknown-kind:{kind}"
+    | some (k, d) =>
+      let r : Res Boxed := do
+        match ← refFromSlice p k 0 bytes with
+        | .error _ => .panic
+        | .ok pl =>
+          let size := le32 bytes 4
+          let _ ← castTo p k d size pl
+          cloneDyn p k d (bytes.take (dynSizeOfVal k pl))
+      match r with
+      | .ok b => boxedStr b (le32 b.bytes 4) none
+      | .panic => "panic" | .oob => "OOB" | .ub => "UB"
+  | _ => "bad-case"
+
+
+def parseBuildOps (s : String) : List (String × Bytes) :=
+  ((s.splitOn ",").filter (fun x => x != "" && x != "-")).filterMap fun op =>
+    match op.splitOn ":" with
+    | [n, h] => some (n, unhex h)
+    | _ => none
+
+def buildCase (p : Profile) (t : List String) : String :=
+  match buildMbi p (parseBuildOps (t.getD 1 "-")) with
+  | .ok b =>
+    let head := s!"len={b.deallocSize} total={le32 b.bytes 0} align8=0 "
+    let mem := b.bytes ++ zeros (b.deallocSize - b.bytes.length)
+    (match load p false mem with
+     | .ok (.ok _) =>
+       let area := (mem.take (le32 mem 0)).drop 8
+       let w := tagsOf p .tag area
+       head ++ "load=ok tags=" ++ String.join (w.1.map fun it => s!"{8 + it.off}:{it.typ}:{it.size}:{hexOf (slice area it.off it.size)},") ++
+         (match w.2 with | .done => "|done" | .bad => "|panic" | _ => "|FAULT") ++ s!" last8={hexOf (slice mem (b.deallocSize - 8) 8)}"
+     | .ok (.error (.memory e)) => head ++ s!"load=err:{memErrStr e} "
+     | .ok (.error .noEndTag) => head ++ "load=err:NoEndTag "
+     | _ => head ++ "load=FAULT ")
+  | .panic => "panic" | .oob => "OOB" | .ub => "UB"
+
+def hbuildCase (p : Profile) (t : List String) : String :=
+  match buildHdr p (t.getD 1 "0").toNat! (parseBuildOps (t.getD 2 "-")) with
+  | .ok b =>
+    let mem := b.bytes ++ zeros (b.deallocSize - b.bytes.length)
+    let head := s!"len={b.deallocSize} align8=0 hdr={hexOf (mem.take 16)} "
+    (match hload p false mem with
+     | .ok (.ok _) =>
+       let area := (mem.take (le32 mem 8)).drop 16
+       let w := tagsOf p .ht area
+       head ++ "load=ok tags=" ++ String.join (w.1.map fun it => s!"{16 + it.off}:{it.size}:{hexOf (slice area it.off it.size)},") ++
+         (match w.2 with | .done => "|done" | .bad => "|panic" | _ => "|FAULT") ++ s!" last8={hexOf (slice mem (b.deallocSize - 8) 8)}"
+     | .ok (.error (.memory e)) => head ++ s!"load=err:{memErrStr e} "
+     | .ok (.error .magicNotFound) => head ++ "load=err:MagicNotFound "
+     | .ok (.error .checksumMismatch) => head ++ "load=err:ChecksumMismatch "
+     | _ => head ++ "load=FAULT ")
+  | .panic => "panic" | .oob => "OOB" | .ub => "UB"
+
 def specRnd (t : List String) : String :=
   match t with
   | [_, n] => let v := n.toNat!; if v + 7 < 18446744073709551616 then toString (roundUp8 v) else "*"
@@ -341,6 +475,11 @@ def handle (p : Profile) (line : String) : String :=
     | "CKS" => cksCase t
     | "FIND" => findCase t
     | "CAST" => castCase p t
+    | "CTOR" => ctorCase p t
+    | "BOXED" => boxedCase p t
+    | "BUILD" => buildCase p t
+    | "HBUILD" => hbuildCase p t
+    | "CLONE" => cloneCase p t
     | "ELFNAME" => elfnameCase t
     | "SWEEP" => (match t with | _ :: hx :: _ => Sweep.sweep p (unhex hx) | _ => "bad-case")
     | _ => s!"unknown-family:{f}"
